@@ -412,7 +412,7 @@ static void run_case(std::vector<u64> const& l)
   u64 capk = l[i++];
   i += 3; // batch, on_batch, on_drain: facts of the source, not inputs of the implementation
   u64 tinit = l[i++], soft = l[i++], hard = l[i++], grace = l[i++];
-  i += 3; // bits, refresh2, catchall
+  i += 4; // bits, refresh2, catchall, report_first: facts of the source
   u64 clock0 = l[i++];
   g_clock.store(static_cast<long long>(clock0));
 
